@@ -206,6 +206,11 @@ def run(ck):
     ck.rule("C02-O10", "handler code registers no deferred callback (QObject::connect, QTimer, QtConcurrent, std::thread, QMetaObject::invokeMethod): everything a handler does to its state happens inside the call the pipeline's lock covers")
     from rules.oth import no_deferred_callbacks
     no_deferred_callbacks(ck, F, "C02-O10", allowed=("OwnThreadHandler::process",))
+    ck.rule("C02-O11", "what all pipelines of the process share is left under its own lock: the standard streams are written through stdio / iostream calls that take the stream's lock, and no builder "
+                       "method hands out a handler object from process-wide storage")
+    from rules.oth import process_wide_streams_locked, builders_create_fresh_handlers
+    process_wide_streams_locked(ck, F, "C02-O11")
+    builders_create_fresh_handlers(ck, F, "C02-O11")
     # a message that a sink hands on through a queued signal (SignalSink with a receiver in another thread) needs LogMessage to be a
     # registered meta-type whenever a logger exists - in synchronous mode the emitting thread is whichever thread logs
     ck.rule("C02-O8", "qRegisterMetaType<LogMessage> runs on every path of a constructor every logger goes through (OwnThreadHandler, SignalSink), not only when asynchronous mode is switched on")
